@@ -5,14 +5,14 @@ From NIPAM Require Import Alloc Geom_proofs Pool_proofs Prio_proofs Alloc_proofs
 From Coq Require Import Lia.
 Open Scope N_scope.
 
-Theorem servable_node_is_served po lab canp apisame held m node nr outs ps :
+Theorem servable_node_is_served po lab svcs canp apisame held m node nr outs ps :
   MapInv m -> KU m ->
   n_cidrs node = [] -> n_deleting node = false -> n_cidrs nr = [] ->
   (forall cs, canp cs = true) ->
   ordered_matching po lab m (n_labels node) true = Ok ps ->
   (exists p c, In p ps /\ get_entry m p = Some c /\ ~ no_room m held c) ->
   exists m' cs, cs <> [] /\
-    sync_node po lab canp apisame held m (Some node) (Some nr) (POk :: outs) = (m', Ok tt, [FxPatch (n_name node) cs POk]).
+    sync_node po lab svcs canp apisame held m (Some node) (Some nr) (POk :: outs) = (m', Ok tt, [FxPatch (n_name node) cs POk]).
 Proof.
   intros M HK Hn Hd Hnr Hcanp Ho (p & c & Hin & Hg & Hroom).
   unfold sync_node. rewrite Hd. unfold allocate_or_occupy. rewrite Hn.
